@@ -55,12 +55,6 @@ Proof.
   rewrite <- (firstn_skipn i l) in H. rewrite lvls_app in H. apply andb_true_iff in H. destruct H as [H1 H2].
   unfold lvls_ok in *. rewrite H1, H2. reflexivity.
 Qed.
-Lemma lvls_insert_before_last l t : lvls_ok l = true -> lvl_ok t = true -> lvls_ok (insert_before_last l t) = true.
-Proof.
-  intros H Ht. unfold insert_before_last. destruct (rev l) as [|x r] eqn:E; [cbn; rewrite Ht; reflexivity|].
-  rewrite <- lvls_rev in H. rewrite E in H. cbn in H. apply andb_true_iff in H. destruct H as [Hx Hr].
-  rewrite lvls_app, lvls_rev. unfold lvls_ok at 1. rewrite Hr. cbn. rewrite Ht, Hx. reflexivity.
-Qed.
 
 (* the ATX level *)
 Lemma atx_level m st : mok C RAtx m st -> 1 <= length (Block.group_n (s_src st) m 1) <= 6.
@@ -142,7 +136,7 @@ Proof.
   destruct (parse_child C h sta text rfa) as [[ch rf3]| |] eqn:Ec; try discriminate.
   pose proof (parse_child_levels h _ _ _ _ _ Hl Ec) as Hch.
   destruct (Block.truthy e); inversion H; subst.
-  - unfold linv. cbn. apply lvls_insert_before_last; [exact Hsa|cbn; exact Hch].
+  - unfold linv. cbn. apply lvls_insert; [exact Hsa|cbn; exact Hch].
   - apply linv_append; [exact Hsa|cbn; exact Hch].
 Qed.
 
